@@ -311,7 +311,7 @@ def _run1(fn, start, env, stop_pred, P, call_value, max_steps, exit_blocks, fork
                                     rv_ = tevalx(conc(normx(so.at.e[1])), so.env, P, g) if so.env.get("#typed") else evalx(conc(normx(so.at.e[1])), so.env, P)
                                 except EvalError:
                                     rv_ = None
-                            upd_ = dict((k_, v_) for k_, v_ in so.env.items() if (isinstance(k_, tuple) and k_ and k_[0] in ("@", "m")) or (isinstance(k_, str) and k_.startswith("#") and not k_.startswith("#out") and k_ not in ("#depth", "#trace", "#typed")))
+                            upd_ = dict((k_, v_) for k_, v_ in so.env.items() if (isinstance(k_, tuple) and k_ and k_[0] in ("@", "m")) or (isinstance(k_, str) and k_.startswith("#") and k_ not in outs_ and k_ not in ("#depth", "#trace", "#typed")))
                             for cellname, vn in outs_.items():
                                 upd_[vn] = so.env.get(cellname)
                             if (rv_, upd_) not in alts_:
